@@ -204,6 +204,59 @@ def run_shard(task, base_seed):
     return res
 
 
+def run_fuzz_campaigns(prop, tier, base_seed):
+    """atheris/libFuzzer campaigns (subprocesses) for clauses with a fuzz budget; {} when none/unavailable."""
+    import shutil
+    import subprocess
+    import tempfile
+    out = {}
+    jobs = []
+    root = None
+    for cl in prop.clauses:
+        if not cl.fuzz or cl.strategy is None:
+            continue
+        if root is None:
+            root = tempfile.mkdtemp(prefix="qv_fuzz_")
+        for k in range(int(cl.fuzz.get("procs", 2))):
+            od = os.path.join(root, f"{cl.name}_{k}")
+            seed = derive_seed(base_seed, prop.id, cl.name, 1000 + k) % (2 ** 31 - 1) + 1
+            p = subprocess.Popen([sys.executable, "-m", "qv.fuzz", prop.id, cl.name, str(int(cl.fuzz.get("runs", 2000))),
+                                  str(seed), od], cwd=VERIF, stdout=subprocess.DEVNULL, stderr=subprocess.DEVNULL,
+                                 env=dict(os.environ, PYTHONHASHSEED="0"))
+            jobs.append((cl.name, od, p))
+    for cname, od, p in jobs:
+        try:
+            p.wait(timeout=3600)
+        except Exception:  # noqa: BLE001 - a time budget hit is "inconclusive", never a violation
+            p.kill()
+        agg = out.setdefault(cname, {"executions": 0, "distinct_nontrivial": 0, "campaigns": 0, "corpus_files": 0,
+                                     "kf_hits": 0, "violations": [], "skipped": None})
+        sp = os.path.join(od, "stats.json")
+        if os.path.exists(sp):
+            try:
+                stt = json.load(open(sp))
+            except Exception:  # noqa: BLE001
+                stt = {}
+            if "skipped" in stt:
+                agg["skipped"] = stt["skipped"]
+            agg["executions"] += int(stt.get("executions", 0))
+            agg["distinct_nontrivial"] += int(stt.get("distinct_nontrivial", 0))
+            agg["corpus_files"] += int(stt.get("corpus_files", 0))
+            agg["kf_hits"] += int(stt.get("kf_hits", 0))
+            agg["campaigns"] += 1
+        vp_ = os.path.join(od, "violation.json")
+        if os.path.exists(vp_):
+            agg["violations"].append(json.load(open(vp_)))
+    if root:
+        shutil.rmtree(root, ignore_errors=True)
+    return out
+
+
+def fuzz_summary_public(fs):
+    return {k: {kk: vv for kk, vv in v.items() if kk != "violations"} | {"violations": len(v.get("violations", []))}
+            for k, v in fs.items()}
+
+
 def replay_known(prop):
     """Replay the committed witness of every open known finding; returns lines to print."""
     lines = []
@@ -244,6 +297,7 @@ def check(pid, tier, base_seed):
             for f in as_completed(futs):
                 results.append(f.result())
     results.sort(key=lambda r: (r["clause"], r["shard"]))
+    fuzz_summary = run_fuzz_campaigns(prop, tier, base_seed) if tier == "thorough" else {}
 
     errors = [e for r in results for e in r["errors"]]
     per_clause = {}
@@ -274,6 +328,14 @@ def check(pid, tier, base_seed):
         for v in r["violations"]:
             key = (r["clause"],) + tuple(v["key"])
             buckets.setdefault(key, (r["clause"], v))
+
+    for cname, fz in fuzz_summary.items():
+        evaluations += fz.get("executions", 0)
+        pc = per_clause.setdefault(cname, {"evaluations": 0, "nontrivial": 0, "enumerated": 0, "wall_s": 0.0})
+        pc["fuzz_executions"] = fz.get("executions", 0)
+        for v in fz.get("violations", []):
+            key = (cname, v["failure"]["site"], tuple(sorted(v["failure"]["tags"])))
+            buckets.setdefault(key, (cname, {"case": v["case"], "failure": v["failure"]}))
 
     # known findings: replay witnesses, print lines
     out_lines = []
@@ -321,6 +383,7 @@ def check(pid, tier, base_seed):
             "label_distribution": dict(sorted(labels.items())),
             "worst_error_over_bound": {k: float(f"{v:.3e}") for k, v in sorted(ratios.items())},
             "known_finding_hits": dict(kf_hits),
+            "coverage_guided_fuzzing": fuzz_summary_public(fuzz_summary),
             "harness_errors": len(errors),
             "repo": env.REPO,
         },
